@@ -9,14 +9,15 @@ Open Scope Z_scope.
    is a source — is the first source of its sub-distributor (not K1) and no source or destination is
    the main account under another name (not K2), and books not exceeding the main balance.
    [booked_after false subs = true] is what validation's "the last occurrence of MAIN is a source"
-   gives.  Then for every sequence of inflows (any non-negative coins to any account) and blocks (with
-   ANY pattern of failing bank calls): no block panics, and after every block the sum of all recorded
+   gives.  Then for every sequence of inflows (any non-negative coins to any account), blocks (with
+   ANY pattern of failing bank calls) and parameter updates (to any configuration of that kind, over the
+   same or other accounts — an id may come back under another account type): no block panics, and after every block the sum of all recorded
    remains equals the main account's balance, per denomination. *)
 Theorem C03_books_equal_balance_after_every_block :
   forall (bk : Z) (Known : dacct -> Prop),
   (forall a, Known a -> da_key a <> bk) ->
   (forall a a', Known a -> Known a' -> da_key a = da_key a' -> da_id a = da_id a') ->
-  forall ops w, winv bk Known w -> booked_after false (dw_subs w) = true -> Forall good_op ops ->
+  forall ops w, winv bk Known w -> booked_after false (dw_subs w) = true -> Forall (good_op Known) ops ->
   books_after_every_block w ops.
 Proof. exact history_keeps_books. Qed.
 Print Assumptions C03_books_equal_balance_after_every_block.
